@@ -7,6 +7,7 @@ import (
 	"fmt"
 	"net/http"
 	"net/http/httptest"
+	"strconv"
 	"strings"
 
 	"golang.org/x/crypto/bcrypt"
@@ -59,12 +60,16 @@ func c21Config(enabled, users string) *config.Config {
 func c21Run(line string) string {
 	f := fields(line)
 	switch {
-	case len(f) == 6 && f[0] == "a":
+	case (len(f) == 6 || len(f) == 7) && f[0] == "a":
+		frag := 0
+		if len(f) == 7 {
+			frag, _ = strconv.Atoi(f[6][1:])
+		}
 		cfg := c21Config(f[1], f[2])
 		w := &c23World{dial: f[3], udp: f[4][0], icmp: f[4][1]}
 		// exactly what initComponents does: buildSOCKS5Auth -> ServerConfig.Authenticators -> NewServer
 		srv := socks5.NewServer(socks5.ServerConfig{Address: "127.0.0.1:0", Authenticators: agent.VerifC21BuildAuth(cfg), Dialer: w})
-		return c23Drive(srv.VerifC21Handler(), w, unhexTok(f[5]))
+		return c23Drive(srv.VerifC21Handler(), w, unhexTok(f[5]), frag)
 	case len(f) == 4 && f[0] == "w":
 		cfg := c21Config(f[1], f[2])
 		// agent.Start: `if a.cfg.SOCKS5.Auth.Enabled { wsCfg.Credentials = a.buildSOCKS5CredentialStore() }`
@@ -112,6 +117,14 @@ func c21Gen(w *bufio.Writer, seed int64, tier string) {
 		{user("", "pass", "-"), nil},                                                                             // empty user name can never be presented
 		{user("alice", "pass", "-") + "/" + user("carol", "", "-") + "/" + user("bob", "builder", "-"), [][2]string{{"alice", "pass"}, {"bob", "builder"}}},
 	}
+	long255 := strings.Repeat("u", 254) + "Z"
+	pw255 := strings.Repeat("p", 254) + "!"
+	pw72 := strings.Repeat("h", 71) + "#"
+	userLists = append(userLists,
+		ulist{user(long255, pw255, "-"), [][2]string{{long255, pw255}}},
+		ulist{user(long255, "", "g"+hx(pw72)), [][2]string{{long255, pw72}}},
+		ulist{user("alice", "", "g"+hx("pass")) + "/" + user("alice", "", "g"+hx("other")), [][2]string{{"alice", "other"}}}, // duplicate hashed name: last wins
+	)
 	names := []string{"alice", "bob", "ghost", "carol", "", "Alice", "alic"}
 	pws := []string{"pass", "builder", "", "other", "plain", "pas", "passs", "not-a-bcrypt-hash"}
 	dials := []string{"ok.7f000001.8080", "f.other", "f.dns", "ok.-.0"}
@@ -130,6 +143,10 @@ func c21Gen(w *bufio.Writer, seed int64, tier string) {
 		return append(b, p...)
 	}
 	emit := func(en string, users string, dial, be string, in []byte) {
+		if r.chance(20) { // fragmented delivery
+			fmt.Fprintf(w, "a %s %s %s %s %s f%d\n", en, users, dial, be, hexTok(in), 1+r.intn(2))
+			return
+		}
 		fmt.Fprintf(w, "a %s %s %s %s %s\n", en, users, dial, be, hexTok(in))
 	}
 	rounds := 1
